@@ -98,6 +98,20 @@ PROPS = {
         'rule': 'stable programs rebuilt under changing version maps (JSON-equal and unequal variants); '
                 'non-trivial = the trace has both a reuse and a re-execution of a recorded call',
     },
+    'C07': {
+        'mc_quick': [], 'sim': None, 'json_mc': True,
+        'title': 'Cache identity',
+        'units': [('keys', 6000, 80000), ('dup', 500, 8000)],
+        'owned': {'DuplicateRejected', 'SetupFailExpected', 'ExecOnlyIfJustified', 'ReuseOnlyIfValid',
+                  'ArgsRoundTripped', 'PathNormalised', 'NoSpuriousException', 'PersistedEqualsReturned',
+                  'SetupErrClass', 'ReturnMatches', 'FinalTreeMatches', 'OutputsNotRewritten'},
+        'nontrivial': lambda st, sc: st['reuse'] + st['sfail'] > 0 and st['inv'] > 1,
+        'rule': 'pairs of build_file / subbuild calls whose function name, positional / keyword arguments (drawn from '
+                'a pool of JSON-colliding structures: tuple/list, 1/1.0/True, key order, non-string keys, extra keys, '
+                'nesting) and path spelling (bytes, PathLike, relative, doubled separator, x/../, ./) are equal or not; '
+                'second call in the same build (duplicate <=> same key) or in the next build (hit <=> same key); the '
+                'spec decides with JsonVal!Eq / Canon; non-trivial = both a hit-or-duplicate and an execution occur',
+    },
     'C08': {
         'mc_quick': ['MC_quick_nest.cfg'], 'mc_thorough': [('MC_nest.cfg', 1500)],
         'title': 'At most one execution per key',
